@@ -22,7 +22,9 @@ use std::collections::{BTreeMap, BTreeSet};
 struct Ns;
 
 /// the classes of the jar (index order = allowed nesting order: a class may only be nested into an earlier one)
-pub const POOL: &[&str] = &["a/Outer", "a/C_1", "a/C_2", "a/C_3", "b/C_4", "C_5"];
+/// `a/Outer$C_1` is a class of its own whose name is exactly what `a/C_1` becomes when it is nested into `a/Outer` under its
+/// derived inner name (legal when that class is listed too and moves elsewhere), and whose own derived inner name holds a `$`.
+pub const POOL: &[&str] = &["a/Outer", "a/C_1", "a/C_2", "a/Outer$C_1", "b/C_4", "C_5"];
 const MISSING_ENCL: &[&str] = &["a/Missing", "gen/Created"];
 const NOT_IN_JAR: &str = "a/NotInJar";
 
@@ -346,6 +348,27 @@ fn check(case: &Case, obs: &mut Obs) -> PropResult {
 	for n in &acc {
 		name_map.insert(n.class.clone(), transitive(&acc, n));
 	}
+	// two classes that would end up under one name: the statement does not say what then happens
+	{
+		let mut finals: BTreeSet<String> = BTreeSet::new();
+		let listed_everywhere: Vec<String> = rnests.iter().map(|n| transitive(&rnests.iter().collect::<Vec<_>>(), n)).collect();
+		let clash_all = {
+			let mut f: BTreeSet<String> = BTreeSet::new();
+			let mut clash = false;
+			for c in POOL.iter().map(|s| s.to_string()).chain(rnests.iter().map(|n| n.class.clone())).collect::<BTreeSet<_>>() {
+				let name = rnests.iter().position(|n| n.class == c).map(|i| listed_everywhere[i].clone()).unwrap_or(c);
+				clash |= !f.insert(name);
+			}
+			clash
+		};
+		let clash_jar = present.iter().any(|m| !finals.insert(name_map.get(&m.name).cloned().unwrap_or_else(|| m.name.clone())));
+		if clash_jar || clash_all {
+			obs.label("two_classes_under_one_name:unspecified");
+			return Ok(());
+		}
+		obs.label_if(rnests.iter().any(|n| present.iter().any(|m| m.name != n.class && name_map.get(&n.class) == Some(&m.name))), "nested_under_the_name_another_listed_class_gives_up");
+		obs.label_if(acc.iter().any(|n| n.inner.contains('$')), "inner_name_with_dollar");
+	}
 	let jar = build_jar(&entries, false)?;
 	let out = dukenest::nest_jar(case.remap, &jar, table.clone()).map_err(|e| format!("nest_jar failed: {e:#}"))?;
 	let answers = ClassMapAnswers(if case.remap { name_map.clone() } else { BTreeMap::new() });
@@ -398,6 +421,17 @@ fn check(case: &Case, obs: &mut Obs) -> PropResult {
 		let (e, g) = (canon_blank(exp), canon_blank(got));
 		if e != g {
 			return Err(format!("class {name} of the nested jar: (expected vs result) {}", first_diff(&e, &g)));
+		}
+		// the InnerClasses entry recorded for a nest carries the nest's inner name (the comparison above leaves simple names
+		// out, as C07 does for names nobody records): exactly as listed - without the leading digits of a local class -, or
+		// nothing for an anonymous class
+		let me = name.trim_end_matches(".class");
+		if let Some(n) = acc.iter().find(|n| name_map.get(&n.class).map(|x| x.as_str()).filter(|_| case.remap).unwrap_or(n.class.as_str()) == me) {
+			let want = if n.kind != 2 { Some(strip_digits(&n.inner)) } else { None };
+			let recorded: Vec<&InnerClass> = got.attrs.iter().filter_map(|a| if let Attr::InnerClasses(l) = a { Some(l) } else { None }).flatten().filter(|ic| ic.inner == me).collect();
+			if !recorded.iter().any(|ic| ic.name == want) {
+				return Err(format!("class {name}: the InnerClasses entry recorded for the nest of {} has the inner name {:?}, the table says {:?}", n.class, recorded.iter().map(|ic| ic.name.clone()).collect::<Vec<_>>(), want));
+			}
 		}
 	}
 	for (name, got) in &got_classes {
@@ -465,7 +499,18 @@ fn check(case: &Case, obs: &mut Obs) -> PropResult {
 		let um = from_quill(&undone).map_err(|e| format!("harness: {e:#}"))?;
 		// only meaningful when the nested names do not collide with other classes
 		let values: BTreeSet<&String> = full_map.values().collect();
-		let injective = want_keys.len() == set.classes.len() && values.len() == full_map.len() && !full_map.values().any(|v| full_map.contains_key(v) || (set.classes.contains_key(v)));
+		// ... i.e. when renaming is one-to-one on every class the set speaks about (keys and descriptors): a nested name may be
+		// the old name of another listed class that itself moves away
+		let mut universe: BTreeSet<String> = set.classes.keys().cloned().collect();
+		universe.extend(full_map.keys().cloned());
+		for c in set.classes.values() {
+			for k in c.fields.keys().chain(c.methods.keys()) {
+				universe.extend(crate::mapmodel::refops::class_segments(&k.desc));
+			}
+		}
+		let finals: BTreeSet<String> = universe.iter().map(|c| full_map.get(c).cloned().unwrap_or_else(|| c.clone())).collect();
+		let injective = want_keys.len() == set.classes.len() && values.len() == full_map.len() && finals.len() == universe.len();
+		obs.label_if(injective && full_map.values().any(|v| full_map.contains_key(v) || set.classes.contains_key(v)), "undo:nested_name_is_the_old_name_of_a_class_that_moves_away");
 		if injective {
 			let src = |m: &MapSet| -> BTreeMap<String, (BTreeSet<MemberKey>, BTreeSet<MemberKey>)> { m.classes.iter().map(|(k, c)| (k.clone(), (c.fields.keys().cloned().collect(), c.methods.keys().cloned().collect()))).collect() };
 			if src(&um) != src(&set) {
